@@ -145,7 +145,7 @@ Fixpoint ser (v : bvalue) : bytes :=
   | BList l => ch_l :: (fix go (l : list bvalue) : bytes :=
                           match l with [] => [] | x :: r => ser x ++ go r end) l ++ [ch_e]
   | BDict l => ch_d :: (fix go (l : list (bytes * bvalue)) : bytes :=
-                          match l with [] => [] | kv :: r => ser_str (fst kv) ++ ser (snd kv) ++ go r end) l
+                          match l with [] => [] | kv :: r => (ser_str (fst kv) ++ ser (snd kv)) ++ go r end) l
                        ++ [ch_e]
   end.
 
@@ -163,7 +163,7 @@ Definition bytes_leb (a b : bytes) : bool := negb (bytes_ltb b a).
 Fixpoint insert_kv {A} (kv : bytes * A) (l : list (bytes * A)) : list (bytes * A) :=
   match l with
   | [] => [kv]
-  | x :: r => if bytes_ltb (fst kv) (fst x) then kv :: l else x :: insert_kv kv r
+  | x :: r => if bytes_ltb (fst x) (fst kv) then x :: insert_kv kv r else kv :: l
   end.
 Fixpoint sort_kv {A} (l : list (bytes * A)) : list (bytes * A) :=
   match l with
